@@ -180,11 +180,20 @@ func NewClient(dsn string, options ...Option) *http.Client {
 var _ http.RoundTripper = (*transport)(nil)
 
 func (r *transport) RoundTrip(req *http.Request) (*http.Response, error) {
-	if req.Method == "" {
-		// net/http: "For client requests, an empty string means GET". The
-		// caller's request is left as it is (RoundTripper contract).
+	if req.URL == nil {
+		return nil, errors.New("httpcache: nil Request.URL")
+	}
+	if req.Method == "" || req.Header == nil {
+		// net/http: "For client requests, an empty string means GET"; a Header
+		// map that was never allocated has no fields. The caller's request is
+		// left as it is (RoundTripper contract).
 		r2 := *req
-		r2.Method = http.MethodGet
+		if r2.Method == "" {
+			r2.Method = http.MethodGet
+		}
+		if r2.Header == nil {
+			r2.Header = make(http.Header)
+		}
 		req = &r2
 	}
 	urlKey := r.uk.URLKey(internal.TargetURL(req))
@@ -549,6 +558,10 @@ func (r *transport) backgroundRevalidate(
 // fields to every response it returns, so it gets an empty map instead.
 func (r *transport) callUpstream(req *http.Request) (*http.Response, error) {
 	resp, err := r.upstream.RoundTrip(req)
+	if resp == nil && err == nil {
+		// neither a response nor an error: a RoundTripper contract violation
+		err = errors.New("httpcache: upstream returned a nil response and a nil error")
+	}
 	if resp != nil && resp.Header == nil {
 		resp.Header = make(http.Header)
 	}
